@@ -68,6 +68,19 @@ def body(chk):
                                   origin="two-images-missing", special=False))
         cases.append(dict(level=level, images=images, rpc=None, seed=chk.seed + 651, fss=["local"], sels=[("all",)],
                           faults=[dict(file="led", kind="missing", cut=0), dict(file="img1", kind="missing", cut=0)], expect="OSError", origin="leader-and-image-missing", special=False))
+    # ---- the same faults on products inside ARCHIVES (zip://prod::file.zip, tar://prod::file.tar: a missing member is reported by these
+    #      file systems the way a mapping reports a missing key) and below directory names with '%' (format / URL-quoting characters)
+    for level, pols in (("1.5", [("HH", None), ("HV", None)]), ("1.1", [("HH", "F1"), ("HH", "F2")])):
+        images = [(pol, sc, 4, 3) for pol, sc in pols]
+        reclen = (192 if level == "1.5" else 544) + 3 * (2 if level == "1.5" else 8)
+        for fsn in ("zip", "tar", "local%"):
+            cases.append(dict(level=level, images=images, rpc=2, seed=chk.seed + 660, fss=[fsn], sels=[("all",)], faults=[], expect="tree", origin=f"{fsn}:intact", special=False))
+            for f in ("summary", "vol", "led", "img1", "img2"):
+                cases.append(dict(level=level, images=images, rpc=None, seed=chk.seed + 661, fss=[fsn], sels=[("all",)], faults=[dict(file=f, kind="missing", cut=0)],
+                                  expect="OSError", origin=f"{fsn}:missing", special=False))
+            for f, cut in (("img2", 720 + 2 * reclen), ("img1", 720 + reclen + 5), ("led", 4000), ("vol", 400)):
+                cases.append(dict(level=level, images=images, rpc=2, seed=chk.seed + 662, fss=[fsn], sels=[("all",)], faults=[dict(file=f, kind="truncated", cut=cut)],
+                                  expect="error", origin=f"{fsn}:truncated", special=False))
     # ---- image truncation at every cut of the TLC family x rpc below / at / above n
     fam = json.load(open(gf))
     for i, f in enumerate(fam):
